@@ -353,7 +353,8 @@ Definition outcome_ok (cf : config) (rq : request) (evs : list event) (r : resul
   | RErr EMissing =>
     c_user (cf_creds cf (rq_host rq)) && c_pass (cf_creds cf (rq_host rq)) = false
   | RErr EFetch => exists s, last evs no_event = (s, AFail) /\ is_reg (s, AFail) = false
-  | RErr ERewind => rq_body rq = BOnce
+  | RErr ERewind => rewind_ok (rq_body rq) = false
+  | RErr ECred => cf_cred_err cf (rq_host rq) = true
   | RErr ETransport => exists s, last evs no_event = (s, AErr)
   | RBad => True
   end.
@@ -363,7 +364,7 @@ Ltac bleaf :=
   try (eexists _, _, _; reflexivity);
   try (eexists _, _, _, _; split; [reflexivity | first [left; reflexivity | right; eexists; eassumption]]);
   try (eexists; split; reflexivity);
-  try (match goal with |- rq_body ?r = BOnce => destruct (rq_body r); simpl in *; congruence end);
+  try assumption;
   try (match goal with |- c_user ?x && c_pass ?x = false =>
          destruct (c_user x), (c_pass x), (c_refresh x); simpl in *; congruence end).
 
@@ -403,8 +404,8 @@ Qed.
 Lemma valid_credentials_succeed clean cf c rq script :
   let '(evs, c', r) := do_request clean parse cf c rq script in
   r <> RBad ->
-  rq_body rq <> BOnce ->
-  r <> RErr ENoCred -> r <> RErr EMissing ->
+  rewind_ok (rq_body rq) = true ->
+  r <> RErr ENoCred -> r <> RErr EMissing -> r <> RErr ECred ->
   (forall s, ~ In (s, AFail) evs) ->
   (forall s, ~ In (s, AErr) evs) ->
   (forall h a hdr, ~ In (SReg h a true, A401 hdr) evs) ->
@@ -415,8 +416,8 @@ Proof.
   pose proof (do_request_budget clean cf c rq script) as B.
   destruct (do_request clean parse cf c rq script) as [[evs c'] r].
   destruct B as (B1 & B2 & O).
-  intros Hbad Hbody Hnc Hmiss Hfail Herr Hfresh Hknown.
-  destruct r as [[|]|[| | | |]|]; simpl in O; try congruence.
+  intros Hbad Hbody Hnc Hmiss Hce Hfail Herr Hfresh Hknown.
+  destruct r as [[|]|[| | | | |]|]; simpl in O; try congruence.
   - exfalso. destruct O as (h & a & fresh & hdr & L & [->|(ps & P)]).
     + apply (Hfresh h a hdr). apply (last_in _ _ _ L). discriminate.
     + apply (Hknown (SReg h a fresh) hdr ps); auto. apply (last_in _ _ _ L). discriminate.
